@@ -1,18 +1,21 @@
 // C06 driver: executes scheduler scenarios on the real execution contexts of libunifex with every thread (harness
 // threads AND the threads created by the library) under the token-passing controller; schedule points are the
 // interposed pthread functions of seam.hpp (no source hooks) plus the sched.aq.* hooks of atomic_intrusive_queue.
+// wrappers (scenario field "wrap"): any = any_scheduler, ref = any_scheduler_ref, sub = schedule_with_subscheduler
 // contexts: mel (manual_event_loop), stc (single_thread_context), pool (static_thread_pool), ntc (new_thread_context),
 //           tramp (trampoline_scheduler), inline (inline_scheduler), aq / aq2 (atomic_intrusive_queue used directly)
 // modes: guided (TLC behaviours), dfs (bounded-preemption enumeration), random (seeded), seq (single schedule),
 //        replay (one scenario, one recorded schedule)
 #include "seam.hpp"
 
+#include <unifex/any_scheduler.hpp>
 #include <unifex/detail/atomic_intrusive_queue.hpp>
 #include <unifex/inline_scheduler.hpp>
 #include <unifex/inplace_stop_token.hpp>
 #include <unifex/manual_event_loop.hpp>
 #include <unifex/new_thread_context.hpp>
 #include <unifex/receiver_concepts.hpp>
+#include <unifex/schedule_with_subscheduler.hpp>
 #include <unifex/scheduler_concepts.hpp>
 #include <unifex/sender_concepts.hpp>
 #include <unifex/single_thread_context.hpp>
@@ -31,17 +34,18 @@ using json = nlohmann::json;
 struct Op { std::string k; int a; };
 using Prog = std::vector<Op>;
 struct Scenario {
-  int id = 0; std::string ctx; int items = 0; int maxd = 0; int workers = 0;
+  int id = 0; std::string ctx; std::string wrap; int items = 0; int maxd = 0; int workers = 0; bool fifo = true;
   std::vector<Prog> prog;   // prog[0] = thread 1
   std::vector<Prog> body;   // body[0] = item 1
 };
 static Prog parseProg(const json& j) { Prog p; for (auto& o : j) p.push_back({o[0].get<std::string>(), o[1].get<int>()}); return p; }
 static Scenario parseScn(const json& s) {
   Scenario sc; sc.id = s["id"].get<int>(); sc.ctx = s["ctx"].get<std::string>(); sc.items = s["items"].get<int>();
-  sc.maxd = s.value("maxd", 0); sc.workers = s.value("workers", 0);
+  sc.maxd = s.value("maxd", 0); sc.workers = s.value("workers", 0); sc.wrap = s.value("wrap", std::string());
   for (auto& p : s["prog"]) sc.prog.push_back(parseProg(p));
   for (auto& p : s["body"]) sc.body.push_back(parseProg(p));
   while ((int)sc.body.size() < sc.items) sc.body.push_back({});
+  for (auto& p : sc.prog) for (auto& o : p) if (o.k == "consume3") sc.fifo = false;   // dequeue_all_reversed: LIFO batches
   return sc;
 }
 
@@ -61,15 +65,73 @@ struct Recv {
   friend inplace_stop_token tag_invoke(tag_t<get_stop_token>, const Recv& r) noexcept;
 };
 template <class S>
-static OpHolder* makeOp(S sched, World* w, int item) {
+static OpHolder* makeOp(S& sched, World* w, int item) {
   using O = connect_result_t<decltype(schedule(sched)), Recv>;
   return new OpImpl<O>([&]() -> O { return connect(schedule(sched), Recv{w, item}); });
 }
+// schedule_with_subscheduler: the value channel carries the scheduler itself
+void completeSub(World* w, int item, int ch, int sub) noexcept;
+inplace_stop_token tokenOf(World* w, int item) noexcept;
+template <class S>
+struct RecvSub {
+  World* w; int item; S sched;
+  template <class X>
+  void set_value(X&& x) && noexcept { World* ww = w; int i = item; int eq = (x == sched) ? 1 : 0; completeSub(ww, i, 1, eq); }
+  void set_done() && noexcept { World* ww = w; int i = item; completeSub(ww, i, 0, -1); }
+  void set_error(std::exception_ptr) && noexcept { World* ww = w; int i = item; completeSub(ww, i, 2, -1); }
+  friend inplace_stop_token tag_invoke(tag_t<get_stop_token>, const RecvSub& r) noexcept { return tokenOf(r.w, r.item); }
+};
+template <class S>
+static OpHolder* makeSub(S& sched, World* w, int item) {
+  using O = connect_result_t<decltype(schedule_with_subscheduler(sched)), RecvSub<S>>;
+  return new OpImpl<O>([&]() -> O { return connect(schedule_with_subscheduler(sched), RecvSub<S>{w, item, sched}); });
+}
+static void evEq(int k, bool want, bool got) {
+  vrt::ev("{\"e\":\"SchedEq\",\"i\":0,\"t\":0,\"k\":%d,\"want\":%d,\"got\":%d}", k, want ? 1 : 0, got ? 1 : 0);
+}
+// a scheduler of the context plus its type-erased wrappers
+struct SchedBox { virtual ~SchedBox() {} virtual OpHolder* make(World*, int item) = 0; virtual void equality() = 0; };
+template <class S>
+struct Box final : SchedBox {
+  S s, s2; std::string wrap; any_scheduler a; any_scheduler_ref r;
+  std::function<void(Box&)> extraEq;
+  Box(S sch, std::string w) : s(sch), s2(sch), wrap(std::move(w)), a(s), r(s) {}
+  OpHolder* make(World* w, int item) override {
+    if (wrap == "any") return makeOp(a, w, item);
+    if (wrap == "ref") return makeOp(r, w, item);
+    if (wrap == "sub") return makeSub(s, w, item);
+    return makeOp(s, w, item);
+  }
+  void equality() override {
+    constexpr bool isInline = std::is_same_v<S, inline_scheduler>;
+    if (wrap == "any") {
+      any_scheduler copy = a; any_scheduler again{s}; any_scheduler other{inline_scheduler{}};
+      evEq(1, true, a == copy); evEq(2, true, a == again); evEq(3, false, a != copy);
+      evEq(4, isInline, a == other); evEq(5, !isInline, a != other);
+      evEq(6, true, a.type() == type_id<S>()); evEq(7, isInline, a.type() == other.type());
+      any_scheduler assigned{inline_scheduler{}}; assigned = a; evEq(8, true, assigned == a);
+      any_scheduler moved{std::move(copy)}; evEq(9, true, moved == a);
+    } else if (wrap == "ref") {
+      any_scheduler_ref same{s}; any_scheduler_ref twin{s2}; inline_scheduler is; any_scheduler_ref other{is};
+      evEq(11, true, r == same); evEq(12, false, r != same);
+      evEq(13, false, r == twin);                    // shallow: another object
+      evEq(14, true, r.equal_to(twin));              // deep: equal schedulers
+      evEq(15, isInline, r.equal_to(other)); evEq(16, false, r == other);
+      evEq(17, true, r.type() == type_id<S>());
+    }
+    if (extraEq) extraEq(*this);
+  }
+};
+template <class S>
+static SchedBox* makeBox(S s, const std::string& wrap) { return new Box<S>(s, wrap); }
 
 struct QItem { QItem* next = nullptr; int id = 0; };
 using AQ = atomic_intrusive_queue<QItem, &QItem::next>;
 
 static thread_local int tl_depth = 0;
+static thread_local int tl_startingItem = 0;    // item whose start() is running on this thread (ntc: thread <-> item)
+struct World;
+static World* g_world = nullptr;
 
 extern "C" void sched_assert_fail(const char* expr, const char* file, int line) noexcept {
   const char* b = std::strrchr(file, '/');
@@ -86,6 +148,9 @@ struct World {
   static_thread_pool* pool = nullptr;
   new_thread_context* ntc = nullptr;
   trampoline_scheduler tramp;
+  manual_event_loop* otherLoop = nullptr;   // a second context of the same type (equality tests)
+  SchedBox* box = nullptr;
+  std::map<int, int> itemThread;            // ntc: item -> logical id of the thread created by its start()
   AQ* aq = nullptr;
   bool wake = false;              // aq: the eventfd of the real users
   std::vector<QItem> qitems;
@@ -108,17 +173,33 @@ struct World {
     else if (kind == "ntc") ntc = new new_thread_context();
     else if (kind == "aq") aq = new AQ(true);
     else if (kind == "aq2") aq = new AQ(false);
-    for (int i = 1; i <= scn->items; ++i) {
-      if (kind == "mel") ops[i] = makeOp(mel->get_scheduler(), this, i);
-      else if (kind == "stc") ops[i] = makeOp(stc->get_scheduler(), this, i);
-      else if (kind == "pool") ops[i] = makeOp(pool->get_scheduler(), this, i);
-      else if (kind == "ntc") ops[i] = makeOp(ntc->get_scheduler(), this, i);
-      else if (kind == "tramp") ops[i] = makeOp(tramp, this, i);
-      else if (kind == "inline") ops[i] = makeOp(inline_scheduler{}, this, i);
+    const std::string& wr = scn->wrap;
+    if (kind == "mel") {
+      auto* b = new Box<decltype(mel->get_scheduler())>(mel->get_scheduler(), wr);
+      if (wr == "any" || wr == "ref") {
+        otherLoop = new manual_event_loop();
+        auto os = otherLoop->get_scheduler();
+        b->extraEq = [os](auto& bx) mutable {        // same scheduler type, different context: never equal
+          if (bx.wrap == "any") { any_scheduler o{os}; evEq(21, false, bx.a == o); evEq(22, true, bx.a != o); evEq(23, true, bx.a.type() == o.type()); }
+          else { any_scheduler_ref o{os}; evEq(24, false, bx.r.equal_to(o)); evEq(25, false, bx.r == o); }
+        };
+      }
+      box = b;
+    }
+    else if (kind == "stc") box = makeBox(stc->get_scheduler(), wr);
+    else if (kind == "pool") box = makeBox(pool->get_scheduler(), wr);
+    else if (kind == "ntc") box = makeBox(ntc->get_scheduler(), wr);
+    else if (kind == "tramp") box = makeBox(tramp, wr);
+    else if (kind == "inline") box = makeBox(inline_scheduler{}, wr);
+    if (box) {
+      box->equality();
+      for (int i = 1; i <= scn->items; ++i) ops[i] = box->make(this, i);
     }
   }
   void teardown() {                                // after all threads finished (controller thread)
     for (auto*& o : ops) { delete o; o = nullptr; }
+    delete box; box = nullptr;
+    delete otherLoop; otherLoop = nullptr;
     delete mel; mel = nullptr;
     if (stc || pool || ntc) { /* scenario forgot "destroy": do it uncontrolled */ delete stc; delete pool; delete ntc; stc = nullptr; pool = nullptr; ntc = nullptr; }
     delete aq; aq = nullptr;
@@ -127,9 +208,9 @@ struct World {
     if (stc) return stc->get_thread_id() == std::this_thread::get_id() ? 1 : 0;
     return -1;
   }
-  void complete(int item, int ch) noexcept {
+  void complete(int item, int ch, int sub = -1) noexcept {
     int d = ++tl_depth;
-    vrt::ev("{\"e\":\"Ran\",\"i\":%d,\"t\":%d,\"ch\":%d,\"own\":%d,\"d\":%d}", item, vrt::self_id(), ch, own(), d);
+    vrt::ev("{\"e\":\"Ran\",\"i\":%d,\"t\":%d,\"ch\":%d,\"own\":%d,\"d\":%d,\"sub\":%d}", item, vrt::self_id(), ch, own(), d, sub);
     ++ranCount; ranBy[item] = vrt::self_id(); ranSeq.push_back({item, ch});
     if (ops[item]) { OpHolder* h = ops[item]; ops[item] = nullptr; delete h; }   // the operation state dies in its completion
     run(scn->body[item - 1]);
@@ -160,7 +241,9 @@ struct World {
             vrt::ev("{\"e\":\"RunReturn\",\"i\":0,\"t\":%d}", t);
           }
         } else {
+          tl_startingItem = i;
           ops[i]->start();
+          tl_startingItem = 0;
         }
         vrt::ev("{\"e\":\"AcceptEnd\",\"i\":%d,\"t\":%d}", i, t);
         ++accEndCount;
@@ -184,6 +267,32 @@ struct World {
           if (!b.empty()) { consumeBatch(b); continue; }
           vrt::ev("{\"e\":\"MarkInactive\",\"i\":0,\"t\":%d}", t);
           if (ranCount >= scn->items) break;
+          while (!wake) UNIFEX_VERIF_SPIN("sched.h.sleep");
+          wake = false;
+        }
+        vrt::ev("{\"e\":\"RunReturn\",\"i\":0,\"t\":%d}", t);
+      } else if (op.k == "trylock") {               // aq2: v1 async_mutex::try_lock() = try_mark_active()
+        if (aq->try_mark_active()) {
+          vrt::ev("{\"e\":\"RunBegin\",\"i\":0,\"t\":%d}", t);
+          while (true) {
+            auto b = aq->try_mark_inactive_or_dequeue_all();
+            if (b.empty()) break;
+            consumeBatch(b);
+          }
+          vrt::ev("{\"e\":\"RunReturn\",\"i\":0,\"t\":%d}", t);
+        }
+      } else if (op.k == "consume3") {              // aq: dequeue_all_reversed() + try_mark_inactive(); try_mark_active() on exit
+        vrt::ev("{\"e\":\"RunBegin\",\"i\":0,\"t\":%d}", t);
+        while (true) {
+          auto b = aq->dequeue_all_reversed();
+          if (!b.empty()) { while (!b.empty()) { QItem* q = b.pop_front(); complete(q->id, 1); } continue; }
+          if (!aq->try_mark_inactive()) continue;
+          vrt::ev("{\"e\":\"MarkInactive\",\"i\":0,\"t\":%d}", t);
+          if (ranCount >= scn->items) {
+            bool r = aq->try_mark_active();
+            vrt::ev("{\"e\":\"MarkActive\",\"i\":0,\"t\":%d,\"r\":%d}", t, r ? 1 : 0);
+            break;
+          }
           while (!wake) UNIFEX_VERIF_SPIN("sched.h.sleep");
           wake = false;
         }
@@ -219,16 +328,29 @@ struct World {
 void Recv::set_value() && noexcept { World* ww = w; int i = item; ww->complete(i, 1); }
 void Recv::set_done() && noexcept { World* ww = w; int i = item; ww->complete(i, 0); }
 void Recv::set_error(std::exception_ptr) && noexcept { World* ww = w; int i = item; ww->complete(i, 2); }
-inplace_stop_token tag_invoke(tag_t<get_stop_token>, const Recv& r) noexcept {
-  vrt::ev("{\"e\":\"Tok\",\"i\":%d,\"t\":%d}", r.item, vrt::self_id());
-  return r.w->src[r.item].get_token();
+inplace_stop_token tokenOf(World* w, int item) noexcept {
+  vrt::ev("{\"e\":\"Tok\",\"i\":%d,\"t\":%d}", item, vrt::self_id());
+  return w->src[item].get_token();
 }
+inplace_stop_token tag_invoke(tag_t<get_stop_token>, const Recv& r) noexcept { return tokenOf(r.w, r.item); }
+void completeSub(World* w, int item, int ch, int sub) noexcept { w->complete(item, ch, sub); }
 
+// pc of the specification's step -> schedule point at which the real thread must be parked
 static bool sameSite(const std::string& want, const std::string& got) {
-  if (want == "op") return got == "sched.h.op";
-  if (want == "enq" || want == "stop" || want == "run") return got == "sched.mutex_lock";
-  if (want == "woken") return got == "sched.cond_wait";
-  if (want == "sleep") return got == "sched.h.sleep";
+  static const std::map<std::string, std::string> m = {
+      {"op", "sched.h.op"}, {"sleep", "sched.h.sleep"}, {"begin", "begin"},
+      // ManualEventLoop
+      {"enq", "sched.mutex_lock"}, {"stop", "sched.mutex_lock"}, {"run", "sched.mutex_lock"}, {"woken", "sched.cond_wait"},
+      // StaticThreadPool
+      {"e_try", "sched.mutex_trylock"}, {"w_try", "sched.mutex_trylock"}, {"e_lock", "sched.mutex_lock"},
+      {"s_lock", "sched.mutex_lock"}, {"w_lock", "sched.mutex_lock"}, {"e_unl", "sched.mutex_unlock"},
+      {"s_unl", "sched.mutex_unlock"}, {"w_tunl", "sched.mutex_unlock"}, {"w_punl", "sched.mutex_unlock"},
+      {"w_wait", "sched.cond_wait"}, {"join", "sched.join"},
+      // NewThread
+      {"start", "sched.mutex_lock"}, {"retire", "sched.mutex_lock"}, {"d_lock", "sched.mutex_lock"},
+      {"joinprev", "sched.join"}, {"d_join", "sched.join"}, {"d_wait", "sched.cond_wait"}};
+  auto it = m.find(want);
+  if (it != m.end()) return got == it->second;
   return got == "sched.aq." + want || got == want;
 }
 
@@ -243,25 +365,30 @@ int main(int argc, char** argv) {
   std::map<int, const Scenario*> byId; for (auto& s : scns) byId[s.id] = &s;
   if (a.has("log")) vrt::log_open(a.str("log").c_str());
   long from = a.num("from", 0), to = a.num("to", 1L << 40);
+  int spuriousBudget = (int)a.num("spurious", mode == "random" ? 2 : (mode == "dfs" ? 1 : 0));
   long execs = 0, steps = 0, drift = 0, unguided = 0, obsMismatch = 0, units = 0, maxThreads = 0;
   std::string firstDrift, firstMismatch;
   std::set<std::string> distinctSched;
   std::map<std::string, long> siteCount;
 
-  seam::G.onCreate = [](int child, int) { vrt::ev("{\"e\":\"ThreadCreated\",\"i\":0,\"t\":%d}", child); };
+  seam::G.onCreate = [](int child, int) {
+    vrt::ev("{\"e\":\"ThreadCreated\",\"i\":0,\"t\":%d}", child);
+    if (g_world && tl_startingItem) g_world->itemThread[tl_startingItem] = child;
+  };
   seam::G.onJoin = [](int child, int) { vrt::ev("{\"e\":\"ThreadJoined\",\"i\":0,\"t\":%d}", child); };
 
   auto runOne = [&](const Scenario& sc, long x, long k, const std::function<vrt::RunResult(vrt::Ctl&)>& drive,
                     const json* expect) {
-    bool fifo = sc.ctx == "mel" || sc.ctx == "stc" || sc.ctx == "aq";
+    bool fifo = (sc.ctx == "mel" || sc.ctx == "stc" || sc.ctx == "aq") && sc.fifo;
     bool inl = sc.ctx == "tramp" || sc.ctx == "inline";
-    vrt::ev("{\"e\":\"Reset\",\"i\":0,\"t\":0,\"x\":%ld,\"k\":%ld,\"scn\":%d,\"ctx\":\"%s\",\"mode\":\"%s\",\"fifo\":%d,\"maxd\":%d,\"inl\":%d,\"imm\":%d,\"excl\":%d}",
-            x, k, sc.id, sc.ctx.c_str(), mode.c_str(), fifo ? 1 : 0, sc.ctx == "tramp" ? sc.maxd : 0, inl ? 1 : 0, sc.ctx == "inline" ? 1 : 0,
+    vrt::ev("{\"e\":\"Reset\",\"i\":0,\"t\":0,\"x\":%ld,\"k\":%ld,\"scn\":%d,\"ctx\":\"%s\",\"wrap\":\"%s\",\"mode\":\"%s\",\"fifo\":%d,\"maxd\":%d,\"inl\":%d,\"imm\":%d,\"excl\":%d}",
+            x, k, sc.id, sc.ctx.c_str(), sc.wrap.c_str(), mode.c_str(), fifo ? 1 : 0, sc.ctx == "tramp" ? sc.maxd : 0, inl ? 1 : 0, sc.ctx == "inline" ? 1 : 0,
             sc.ctx == "aq2" ? 1 : 0);
     seam::G.reset();
     seam::G.yieldOnUnlock = sc.ctx == "pool" || a.has("unlock-yield");
     tl_depth = 0;
     auto w = std::make_unique<World>(sc);
+    g_world = w.get();
     vrt::RunResult rr;
     {
       vrt::Ctl c; c.accept = {"sched."};
@@ -271,6 +398,7 @@ int main(int argc, char** argv) {
       for (size_t t = 0; t < sc.prog.size(); ++t)
         if (!sc.prog[t].empty()) c.spawn((int)t + 1, [&, t] { w->run(w->scn->prog[t]); });
       c.start_all();
+      seam::G.spuriousLeft = spuriousBudget;
       rr = drive(c);
       std::string s = vrt::sched_json(rr);
       if (rr.deadlock) {
@@ -286,6 +414,7 @@ int main(int argc, char** argv) {
       vrt::ev("{\"e\":\"End\",\"i\":0,\"t\":0,\"sched\":%s}", s.c_str());
     }
     w->teardown();
+    g_world = nullptr;
     ++execs; steps += (long)rr.steps.size(); drift += rr.drift ? 1 : 0; unguided += rr.unguided;
     for (auto& st : rr.steps) siteCount[st.site]++;
     if (rr.drift && firstDrift.empty()) firstDrift = "unit " + std::to_string(x) + ": " + rr.firstDrift;
@@ -310,7 +439,11 @@ int main(int argc, char** argv) {
       if (b.contains("sched")) for (auto& s : b["sched"]) sched.push_back({s[0].get<int>(), s[1].get<std::string>()});
       ++units;
       json ran = b["ran"];
-      runOne(sc, x, 0, [&](vrt::Ctl& c) { return seam::run_guided(c, sched, sameSite); }, &ran);
+      auto mapId = [&](int t) {                       // 200 + i = the thread created by start() of item i (ntc)
+        if (t >= 200 && g_world) { auto it = g_world->itemThread.find(t - 200); return it == g_world->itemThread.end() ? -1 : it->second; }
+        return t;
+      };
+      runOne(sc, x, 0, [&](vrt::Ctl& c) { return seam::run_guided(c, sched, sameSite, mapId); }, &ran);
     }
   } else if (mode == "replay") {
     const Scenario& sc = *byId.at((int)a.num("scn", 1));
@@ -337,7 +470,7 @@ int main(int argc, char** argv) {
   json sites = json::object(); for (auto& [s, n] : siteCount) sites[s] = n;
   json s = {{"mode", mode}, {"units", units}, {"execs", execs}, {"steps", steps}, {"drift", drift}, {"unguided", unguided},
             {"obs_mismatch", obsMismatch}, {"distinct_schedules", (long)distinctSched.size()},
-            {"first_drift", firstDrift}, {"first_mismatch", firstMismatch}, {"sites", sites}, {"max_threads", maxThreads}};
+            {"spurious_wakeups", seam::G.spuriousTaken}, {"first_drift", firstDrift}, {"first_mismatch", firstMismatch}, {"sites", sites}, {"max_threads", maxThreads}};
   std::printf("%s\n", s.dump().c_str());
   return 0;
 }
